@@ -13,6 +13,11 @@ CLAIMS = {
          "DESIGN.md section 3, C06"),
 }
 
+CLAIMS["C03"] = ("SSA path rules over the token-driven decoder (epoch-scoped must-check-before-use with one path-sensitive fact, guarded-by comparisons, constant flags, AST switch exhaustiveness)",
+ "Structural necessary conditions of decode strictness decided on every path of codec/dagcbor's decoder functions: strictness flags constant-true on all non-relaxed paths and handed to cbor.NewDecoder; every committing assembler call behind a Token.Tagged test in its token epoch (only AssignLink on the tagged edge); AssignLink behind tag==42 (encoder's constant), AllowLinks, len>=1, zero prefix, cid.Cast of the remainder; declared lengths enforced both ways; string keys with seen-set test+insert in strict mode; nil return only behind io.EOF after the item; uint tokens below 2^63 only; exhaustive token switch. Not the tokenizer, not value fidelity.",
+ "Trusted: go/ssa + go/types, refmt/cbor honouring its DecodeOptions, cid.Cast. Not covered: tokenizer strictness (minimal heads, NaN detection happen in refmt), fidelity of accepted values.",
+ "DESIGN.md section 3, C03")
+
 NOT_APPLICABLE = {
  "C13": "concerns the output of running the code generator on arbitrary schemas and the run-time equivalence of two engines; the generator's logic lives in text/template strings, so no typed program exists to analyse before execution (DESIGN.md section 4)",
 }
